@@ -68,6 +68,16 @@ def check_norm(x):
         return ['norm raised %s: %s' % (type(e).__name__, e)]
     if abs(got.imag) > 1e-12 or abs(got.real - want) > 1e-9 * max(1.0, want):
         return ['norm() = %r, dense Frobenius norm = %r' % (got, want)]
+    # the other entry points: symmray.linalg.norm and the autoray dispatch
+    import symmray.linalg as la
+    import autoray as ar
+    for nm, f in (('linalg.norm(x)', lambda: la.norm(x)), ("ar.do('linalg.norm', x)", lambda: ar.do('linalg.norm', x))):
+        try:
+            g2 = complex(f())
+        except Exception as e:
+            return ['%s raised %s: %s' % (nm, type(e).__name__, e)]
+        if abs(g2.imag) > 1e-12 or abs(g2.real - want) > 1e-9 * max(1.0, want):
+            return ['%s = %r, dense Frobenius norm = %r' % (nm, g2, want)]
     return []
 
 
@@ -108,6 +118,11 @@ def check_solve_dense(sr, sym, a, b):
     except Exception as e:
         return ['solve raised %s: %s' % (type(e).__name__, e)], None
     ad, bd = gen.densify(a), gen.densify(b, indices=[a.indices[0]])
+    # the solution lives on the conjugate of a's column index (its own table and direction, not b's)
+    if x.ndim != 1 or dict(x.indices[0].chargemap) != dict(a.indices[1].chargemap) or bool(x.indices[0].dual) == bool(a.indices[1].dual):
+        fails.append('solve: the index of the solution (%r, dual=%r) is not the conjugate of the column index of a (%r, dual=%r)' % (
+            dict(x.indices[0].chargemap) if x.ndim else None, bool(x.indices[0].dual) if x.ndim else None,
+            dict(a.indices[1].chargemap), bool(a.indices[1].dual)))
     try:
         xd = gen.densify(x, indices=[a.indices[1]])
     except (KeyError, ValueError) as e:
